@@ -3,7 +3,7 @@
    stack_spiller.py / _stack_reorder tied by exact-output differential + EVM execution. *)
 From Coq Require Import ZArith List Bool.
 From Verif Require Import Base.PyInt C14S.PyList C14S.StackSpec C14S.StackSpecProofs C14S.GenStackModel C14S.TieStackModel
-  C14S.Spill C14S.SpillProofs C14S.SpillInv.
+  C14S.Spill C14S.SpillProofs C14S.SpillInv C14S.ReorderProofs.
 Import ListNotations.
 Open Scope Z_scope.
 
@@ -102,6 +102,36 @@ Proof.
 Qed.
 Print Assumptions spill_slots_no_alias.
 
+(* (c) _stack_reorder.  Placement loop: for ANY stack height and any duplicate-free target whose operands are on the
+   stack, the loop terminates without error, leaves the target as the top |target| items in order, keeps the height
+   and every operand of the stack, emits only SWAPs with index <= 16 (deep ones through spilling) and the emitted
+   code realises the new stack map on the machine. *)
+Theorem reorder_place_correct : forall ops a m s,
+  sp_inv s -> NoDup ops -> (forall x, In x ops -> In x m) -> (length ops <= length m)%nat ->
+  exists new m' s' cost,
+    place Z.eqb false (zlen ops) ops 0 a m s 0 = Ok (a ++ new, m', s', cost) /\
+    skipn (length m' - length ops) m' = ops /\
+    length m' = length m /\ (forall x, In x m -> In x m') /\
+    forallb depth_ok new = true /\ sp_inv s' /\
+    forall mm, exists mm', run new (view m, mm) = Some (view m', mm').
+Proof. exact reorder_place_correct_thm. Qed.
+Print Assumptions reorder_place_correct.
+
+(* the whole _stack_reorder (restore / sort / reduce / place / final assertion) when no target is spilled and every
+   target is within SWAP16 reach -- the documented preconditions of the common path; any stack height *)
+Theorem stack_reorder_correct : forall ops a m s d,
+  ops <> [] -> sp_inv s -> NoDup ops ->
+  (forall x, In x ops -> sp_lookup d x = None) ->
+  (forall x, In x ops -> exists dp, spec_get_depth m x = Some dp /\ -16 <= dp) ->
+  exists new m' s' cost,
+    stack_reorder Z.eqb false ops a m s d = Ok (a ++ new, m', s', d, cost) /\
+    skipn (length m' - length ops) m' = ops /\
+    length m' = length m /\ (forall x, In x m -> In x m') /\
+    forallb depth_ok new = true /\ sp_inv s' /\
+    forall mm, exists mm', run new (view m, mm) = Some (view m', mm').
+Proof. exact stack_reorder_correct_thm. Qed.
+Print Assumptions stack_reorder_correct.
+
 (* non-vacuity: a 40-deep swap and a 30-deep dup on concrete stacks *)
 Definition big := map Z.of_nat (seq 1 41).
 Example deep_examples :
@@ -110,3 +140,7 @@ Example deep_examples :
   (match sp_dup false (-29) [] big (mkSp [] 4096 0) with
    | Ok (a, m, _, _) => forallb depth_ok a && (nth 41 m 0 =? 12) && (length m =? 42)%nat | Err _ => false end) = true.
 Proof. vm_compute. split; reflexivity. Qed.
+Example reorder_example :
+  match stack_reorder Z.eqb false [5; 9; 1] [] [1; 5; 7; 9; 11] (mkSp [] 4096 0) [] with
+  | Ok (a, m, _, _, _) => forallb depth_ok a && (if list_eq_dec Z.eq_dec m [7; 11; 5; 9; 1] then true else false) | Err _ => false end = true.
+Proof. vm_compute. reflexivity. Qed.
